@@ -175,7 +175,11 @@ pub fn run(prop: &str, outdir: &str, seed: u64, thorough: bool) -> serde_json::V
             "WITH w AS (SELECT t.user_id AS u, AVG(t.amount) AS m FROM orders AS t GROUP BY t.user_id) SELECT a.u AS u, a.m AS m1, b.m AS m2 FROM w AS a JOIN w AS b ON a.u = b.u",
             "WITH w AS (SELECT t.id AS i, t.age AS a FROM users AS t WHERE t.age > 30) SELECT x.a AS a1, y.a AS a2 FROM w AS x JOIN w AS y ON x.i = y.i",
             "WITH w AS (SELECT t.city AS c, COUNT(*) AS n FROM users AS t GROUP BY t.city) SELECT x.c AS c, x.n + y.n AS n FROM w AS x JOIN w AS y ON x.c = y.c",
-            "WITH w AS (SELECT t.age AS a FROM users AS t) SELECT x.a AS a FROM w AS x UNION SELECT y.a AS a FROM w AS y"];
+            "WITH w AS (SELECT t.age AS a FROM users AS t) SELECT x.a AS a FROM w AS x UNION SELECT y.a AS a FROM w AS y",
+            // an aggregation released as it is on one side and aggregated again on the other: the two occurrences get different labels
+            "WITH stats AS (SELECT t.user_id AS u, SUM(t.amount) AS total FROM orders AS t GROUP BY t.user_id) SELECT s.u AS u, s.total AS v FROM stats AS s UNION ALL SELECT 0 AS u, AVG(x.total) AS v FROM stats AS x",
+            "WITH stats AS (SELECT t.user_id AS u, SUM(t.amount) AS total FROM orders AS t GROUP BY t.user_id) SELECT 0 AS u, AVG(x.total) AS v FROM stats AS x UNION ALL SELECT s.u AS u, s.total AS v FROM stats AS s",
+            "WITH stats AS (SELECT t.city AS c, COUNT(t.id) AS n FROM users AS t GROUP BY t.city) SELECT s.c AS c, s.n AS v FROM stats AS s UNION ALL SELECT 'all' AS c, SUM(x.n) AS v FROM stats AS x"];
         // the first query of every run: a left-deep chain of six aggregated sub-queries and one that has no DP rule; its top join has
         // more than sixty consistent derivations and the all-synthetic one comes last
         let long_chain = attempts == 1;
